@@ -15,7 +15,8 @@ RULE = ('random trajectory sets (1-6 trajectories, lengths incl. 1 and below the
         'alphabets, uniform dtypes int8..int64, container forms) x lag 1..12; thorough adds all sets '
         'of <= 2 trajectories over 3 labels with total length <= 8 x lag 1..4. Compared: states and '
         'every T[i,j] within 1e-12 of the exact C_ij/S_i of the model, function and method. '
-        'Non-trivial: >= 2 non-zero rows in C and (a trajectory not longer than the lag or >= 2 trajectories).')
+        'Non-trivial: >= 2 non-zero rows in C and (a trajectory not longer than the lag or >= 2 trajectories).'
+        ' Added classes: narrow integer arrays (runs > 127/255 frames, > 128 states over arrays of different widths/signedness), (N,1) arrays, zero-length member trajectories, > 256 trajectories, one trajectory of > 2^16 frames, Fortran/transposed/strided memory layouts, lag times given as NumPy integer scalars; after the estimate the returned (T, states) are overwritten and the estimate repeated on the same object.')
 TRUSTED = ['float division within 1e-12 of the exact quotient (measured on every case, not proved)',
            'numba typed-list conversion is exercised, not modelled']
 ASSUMPTIONS = ['labels within +-2^29', 'zero-length trajectories only as typed integer arrays (a python [] becomes a float array and is rejected by the library)']
